@@ -458,6 +458,10 @@ MUTATIONS = [
                 """                if round(snr01nm_with_penalty[min_ind], 2) < pathreq.OSNR - equipment['SI']['default'].sys_margins:
                     msg = f'\\tWarning! Request {pathreq.request_id} computed path from' \\
                         + f' {pathreq.source} to {pathreq.destination} does not pass with {pathreq.tsp_mode}'""")]},
+    {'id': 'c13-revert-auto-mode-at-threshold', 'props': ['C13'], 'tests': 'tests/test_automaticmodefeature.py',
+     'desc': 'revert of fix 6c887273: automatic selection passes over a mode exactly at OSNR + margin',
+     'edits': [('gnpy/topology/request.py', "                        >= this_mode['OSNR'] + equipment['SI']['default'].sys_margins:",
+                "                        > this_mode['OSNR'] + equipment['SI']['default'].sys_margins:")]},
     {'id': 'c13-fixed-mode-strict-at-threshold', 'props': ['C13'], 'tests': 'tests/test_automaticmodefeature.py',
      'desc': 'fixed mode: a worst channel exactly at threshold + margin is blocked ("at least" became "more than")',
      'edits': [('gnpy/topology/request.py',
